@@ -5,10 +5,10 @@ export PATH=/root/go/pkg/mod/golang.org/toolchain@v0.0.1-go1.24.0.linux-amd64/bi
 cd $W || exit 2
 PKGDIR=$(head -1 $S/zz_seeded_demo_test.go | sed 's/.*package dir: *//; s/ *$//')
 PKGDIR=${PKGDIR#./}
-git checkout -q -- . ; git apply $S/patch.diff || { echo "RESULT $ID patch-does-not-apply"; exit 1; }
+git checkout -q -- . ; git clean -fdq -- internal pkg 2>/dev/null; git apply $S/patch.diff || { echo "RESULT $ID patch-does-not-apply"; exit 1; }
 cp $S/zz_seeded_demo_test.go $PKGDIR/zz_seeded_demo_test.go
 go test -vet=off -count=1 -run 'Seeded' ./$PKGDIR > $S/confirm_with.log 2>&1; WITH=$?
-git stash -q; go test -vet=off -count=1 -run 'Seeded' ./$PKGDIR > $S/confirm_without.log 2>&1; WITHOUT=$?; git stash pop -q
+git apply -R $S/patch.diff; go test -vet=off -count=1 -run 'Seeded' ./$PKGDIR > $S/confirm_without.log 2>&1; WITHOUT=$?; git apply $S/patch.diff
 mv $PKGDIR/zz_seeded_demo_test.go /tmp/seed/$ID.demo.tmp
 mv $S /tmp/seed/$ID.SEEDED.tmp
 go test -vet=off -count=1 ./... > /tmp/seed/$ID.SEEDED.tmp/confirm_suite.log 2>&1; SUITE=$?
